@@ -7,6 +7,7 @@ func init() {
 		ID:    "C09",
 		Title: "Evaluation never crashes",
 		Rules: []string{
+			"R-USERCODE: the data conversion calls no method of a data value (no interface method call on a non-module interface, no reflect method call)",
 			"R-RECDEPTH: the recursion of the data conversion (NativeToObject and its helpers) runs through a depth or cycle guard — it has none: known finding (data with a pointer cycle)",
 			"R-TOKPOS: who writes the lexer's position counters; token positions (evaluation errors carry the line of the construct)",
 			"R-EVALERR: the result of every recursive Eval is returned or tested with isError before use, and on the error side the error is what is returned (itself, wrapped, or as the single element of a result list)",
@@ -16,6 +17,7 @@ func init() {
 		NotDecided:  "TODO",
 		Assumptions: trustedBase,
 		Run: func(m *Model, s *Sink) {
+			m.RunNoUserMethods(s, "R-USERCODE") // no method of a data value is called while the data is converted (a typed nil Stringer)
 			// the conversion of the caller's data recurses over the data: a pointer cycle never ends (a Go stack overflow is not a panic)
 			if nto := m.PkgFunc("object", "NativeToObject"); nto != nil {
 				var conv []*ssa.Function
